@@ -65,11 +65,11 @@ def judge(run, binary, cases, outs):
 def cli_test_mode(run, failures):
     """jrsonnet-fmt --test must accept what jrsonnet-fmt printed (real executable)."""
     exe = os.path.join(core.REPO_TARGET, "debug", "jrsonnet-fmt")
-    if not os.path.exists(exe):
-        bins, err = core.build_repo_bins(run, packages=("jrsonnet-fmt",))
-        if not bins:
-            run.obligation("jrsonnet-fmt.build", False, err)
-            return
+    # always through cargo: the executable must be the one of the current working tree
+    bins, err = core.build_repo_bins(run, packages=("jrsonnet-fmt",))
+    if not bins:
+        run.obligation("jrsonnet-fmt.build", False, err)
+        return
     rng = run.rng.fork("cli")
     tmp = tempfile.mkdtemp(prefix="c20-cli-", dir=core.CACHE)
     try:
@@ -109,7 +109,20 @@ def cli_test_mode(run, failures):
         shutil.rmtree(tmp, ignore_errors=True)
 
 
+def foreign_translator_checks_to_notes(run):
+    """C19/C20 use no regenerated table (their Coq files import nothing from Gen/): a failing
+    self-check of another property's translator plug-in is recorded, not judged here."""
+    kept = []
+    for n, ok, d in run.obligations:
+        if n.startswith("translator."):
+            run.notes.append(f"{n} (table not used by this property): {d[:160]}")
+        else:
+            kept.append((n, ok, d))
+    run.obligations = kept
+
+
 def check(run, terrs):
+    foreign_translator_checks_to_notes(run)
     proofs_ok, detail = core.check_property_file(run, "C20")
     # the C20 theorems live partly in C19's files
     ok19, log19 = core.coq_make(core.coq_targets_for(["C19"]))
@@ -132,11 +145,16 @@ def check(run, terrs):
     for c, o in zip(cases, outs):
         if c.get("fixed"):
             want = F.FIXED[c["fixed"]][1]
-            got = sorted({("diag" if "diag" in f else "ok" if "ok" in f else "panic")
-                          for f in (o or {}).get("fmt", {}).values()})
-            run.obligation(f"fixed-finding-stays-fixed.{c['fixed']}", got == [want],
-                           f"{c['src']!r}: expected {want} for every indent, got {got}: "
-                           f"{json.dumps((o or {}).get('fmt'))[:300]}")
+            fm = (o or {}).get("fmt", {})
+            if want == "diag":
+                got = sorted({("diag" if "diag" in f else "ok" if "ok" in f else "panic") for f in fm.values()})
+                ok = got == ["diag"]
+            else:  # preserved: formatted, and the second pass changes nothing
+                got = sorted({("stable" if f.get("again", {}).get("same") else "unstable") if "ok" in f else
+                              "diag" if "diag" in f else "panic" for f in fm.values()})
+                ok = got == ["stable"]
+            run.obligation(f"fixed-finding-stays-fixed.{c['fixed']}", ok,
+                           f"{c['src']!r}: expected {want} for every indent, got {got}: {json.dumps(fm)[:300]}")
     cli_test_mode(run, failures)
     for c, o in zip(cases, outs):
         if len(run.samples) >= 8:
